@@ -286,23 +286,33 @@ _EXOTIC = [_ToDict(), _AsDict(), _Iso(), _Opaque(), set([1]), (1, 2), _gen, len,
 _EXOTIC_OK = [True, True, True, False, True, True, False, False, True, True]   # serialisable without dev mode?
 
 
-def ob_exotic(kind: int, nest: int, dev: bool) -> bool:
-    """dev mode never raises (repr fallback); non-dev raises TypeError only for non-serialisable objects."""
+def ob_exotic(kind: int, nest: int, dev: bool, rk: int = 0) -> bool:
+    """dev mode never raises (repr fallback); non-dev raises TypeError only for non-serialisable objects.
+    rk: 0 JSONRender, 1 JSONPRender without callback, 2 JSONPRender with callback, 3 streaming JSONRender"""
+    kind, nest, rk = R(kind), R(nest), R(rk)
+    dev = True if dev else False
     o = _EXOTIC[kind]
     v = [o, [o], {'k': o}, {'k': [o, 1]}][nest]
     with _Stubbed():
         try:
-            r = JSONRender(dev_mode=dev)(v)
+            if rk == 0:
+                r = JSONRender(dev_mode=dev)(v)
+            elif rk == 3:
+                r = JSONRender(dev_mode=dev, streaming=True)(v)
+            else:
+                r = JSONPRender(dev_mode=dev)(_Req(cb='cb' if rk == 2 else None), v)
             body = ''.join(r.response)
+            if rk == 2:
+                body = body[len('cb('):-2]
         except TypeError:
             return (not dev) and (not _EXOTIC_OK[kind])
     json.loads(body)
     if not dev and not _EXOTIC_OK[kind]:
         return False
-    return r.mimetype == J
+    return r.mimetype == (J if rk != 2 else 'application/javascript')
 
 
-def tw_exotic(kind: int, nest: int, dev: bool) -> bool:
+def tw_exotic(kind: int, nest: int, dev: bool, rk: int = 0) -> bool:
     o = _EXOTIC[kind]
     with _Stubbed():
         try:
@@ -358,3 +368,28 @@ def confirm_table(ctx, doc, via_accept, with_route):
     cl = app.get_local_client()
     resp = cl.get('/', headers={'Accept': 'text/html'}) if via_accept else cl.get('/?format=html')
     return not (resp.status_code == 200 and resp.mimetype == 'text/html' and '<table' in resp.get_data(True))
+
+
+JSON_DOCS = ['{"body": "<html>"}', '["<html"]', '{"a": "<!doctype html><html><body>x</body></html>"}', '[1, 2, "<html lang=en>"]', '{"k": 1}', '[]',
+             '{"pad": "%s", "h": "<html>"}' % ('x' * 200)]
+
+
+def ob_json_with_html(doc_i: int, as_bytes: bool) -> bool:
+    """a serialized JSON object/array stays application/json even when a string inside it mentions <html"""
+    with untraced():
+        text = JSON_DOCS[doc_i]
+        with _Stubbed():
+            r = BasicRender().render_response(text.encode('utf8') if as_bytes else text, _Req(), None)
+        return r.status_code == 200 and r.mimetype == J and r.response == text.encode('utf8')
+
+
+def confirm_json_with_html(doc_i, as_bytes):
+    return _confirm_text(JSON_DOCS[doc_i], as_bytes) if False else not _plain_label(JSON_DOCS[doc_i], as_bytes)
+
+
+def _plain_label(text, as_bytes):
+    from clastic import Application, render_basic
+    ctx = text.encode('utf8') if as_bytes else text
+    app = Application([('/', lambda: ctx, render_basic)])
+    resp = app.get_local_client().get('/')
+    return resp.status_code == 200 and resp.mimetype == J
